@@ -5,7 +5,7 @@ Case line:  `<kind>|<k0,k1,…>|<msg> <msg> …`
   kind `sm` : per step `<phase idx>:<outcome>`
   kind `mx` : per step `<phase idx>:<outcome>{<metrics>}`
   `k_i` is the ingress-register key class of header `i`.
-Messages: `i` | `u.h.e.c4` | `d.h` | `r.h.<p4><p2>.<eor|->.<pure>.na.nw.fa.<xok><avok>.<catalogue id, ignored>` | `s.h` | `m.h` | `t`
+Events: `/` (the router reconnects) or a message: `i` | `u.h.e.c4` | `d.h` | `r.h.<p4><p2>.<eor|->.<pure>.na.nw.fa.<xok><avok>.<catalogue id, ignored>` | `s.h` | `m.h` | `t`
 -/
 open Rotonda.Bmp
 
@@ -51,14 +51,16 @@ def words (s : String) : List String := (s.splitOn " ").filter (· ≠ "")
 def runCase (v : Variant) (line : String) : String :=
   match line.splitOn "|" with
   | [kind, keys, msgs] =>
-    match (if keys == "" then some [] else (keys.splitOn ",").mapM (·.toNat?)), (words msgs).mapM parseMsg with
+    match (if keys == "" then some [] else (keys.splitOn ",").mapM (·.toNat?)),
+          (words msgs).mapM (fun w => if w == "/" then some none else (parseMsg w).map some) with
     | some keys, some msgs =>
       let K : Hdr → Key := fun h => keys.getD h h
       let withMx := kind == "mx"
-      let rec go (s : MState) (ms : List Msg) (acc : List String) : List String :=
+      let rec go (s : MState) (ms : List (Option Msg)) (acc : List String) : List String :=
         match ms with
         | [] => acc.reverse
-        | m :: rest =>
+        | none :: rest => go (s.ev v K .reconnect) rest ("/" :: acc)
+        | some m :: rest =>
           let r := mstep v K s m
           let o := s!"{r.1.st.phase.idx}:{showOut r.2}" ++ (if withMx then showMx r.1.mx else "")
           go r.1 rest (o :: acc)
